@@ -51,6 +51,8 @@ type gmap[K comparable, V any] map[K]V
 func __upd[K comparable, V any](m gmap[K, V], k K, v V) gmap[K, V] { return m }
 func __del[K comparable, V any](m gmap[K, V], k K) gmap[K, V] { return m }
 func __emptymap[K comparable, V any]() gmap[K, V] { return nil }
+func __idx() int { return 0 }
+func __eq[T any](a, b T) bool { return true }
 func __called(name string) bool { return true }
 func __lastret(name string, i int) any { return nil }
 func __arg(i int) any { return nil }
